@@ -468,3 +468,92 @@ def op_c01(case):
     elif im.get("ok") and "rows" in im and case.get("want_rows"):
         r["rows"] = im["rows"]
     return r
+
+
+# ---------------------------------------------------------------------------------------------
+# C04: shape rows + compile oracle
+# ---------------------------------------------------------------------------------------------
+def shape_rows(tree) -> list:
+    """rows for AstShape.tla: [ty, pty, fld, ctx, pctx, l, c, el, ec, f]"""
+    rows = []
+
+    def ctxname(n):
+        c = getattr(n, "ctx", None)
+        return type(c).__name__ if isinstance(c, ast.AST) else ("" if c is None else "BAD")
+
+    def walk(node, pty, fld, pctx):
+        loc = [getattr(node, a, None) for a in _LOC]
+        loc = [x if isinstance(x, int) and not isinstance(x, bool) and x >= 0 else -1 for x in loc]
+        f, kids = [], []
+        for name in node._fields:
+            if not hasattr(node, name):
+                f.append([name, "missing", []])
+                continue
+            v = getattr(node, name)
+            if isinstance(v, ast.AST):
+                f.append([name, "node", []])
+                kids.append((v, name))
+            elif isinstance(v, list):
+                kinds = set()
+                for x in v:
+                    if isinstance(x, ast.AST):
+                        kinds.add("n")
+                        kids.append((x, name))
+                    elif x is None:
+                        kinds.add("N")
+                    elif isinstance(x, (list, tuple, dict, set)):
+                        kinds.add("B")
+                    else:
+                        kinds.add("s")
+                f.append([name, "list", sorted(kinds)])
+            elif v is None:
+                f.append([name, "none", []])
+            elif isinstance(v, (tuple, dict, set)):
+                f.append([name, "bad", []])
+            else:
+                f.append([name, "scalar", []])
+        rows.append({"ty": type(node).__name__, "pty": pty, "fld": fld, "ctx": ctxname(node) if hasattr(node, "ctx") else "",
+                     "pctx": pctx, "l": loc[0], "c": loc[1], "el": loc[2], "ec": loc[3], "f": f})
+        me = ctxname(node) if hasattr(node, "ctx") else ""
+        for kid, name in kids:
+            if type(kid).__name__ in ("Load", "Store", "Del"):
+                continue
+            walk(kid, type(node).__name__, name, me)
+
+    walk(tree, "", "", "")
+    return rows
+
+
+def op_c04(case):
+    """parse (any language), shape rows, compile oracle with the written-out-Python fallback"""
+    src, mode = case["src"], case.get("mode", "exec")
+    arm()
+    try:
+        tree = P().parse_string(src, mode=mode)
+    except HangTimeout:
+        return {"ok": False, "hang": True}
+    except BaseException as e:  # noqa: BLE001
+        return {"ok": False, "exc": exc_record(e)}
+    if not isinstance(tree, ast.AST):
+        return {"ok": False, "none": True}
+    r = {"ok": True, "rows": shape_rows(tree), "ll": [len(x.encode("utf-8", "surrogatepass")) for x in src.split("\n")]}
+    comp = obs_compile(tree, mode)
+    r["compile"] = "ok"
+    if not comp["ok"]:
+        cls = comp["exc"]["cls"]
+        r["compile_exc"] = comp["exc"]
+        if "SyntaxError" in comp["exc"]["mro"]:
+            # semantic rejection: allowed only if the written-out Python is rejected too
+            try:
+                text = ast.unparse(tree)
+                ref = obs_compile(ast.parse(text, mode="eval" if mode == "eval" else "exec"), mode)
+                r["compile"] = "semantic_both" if not ref["ok"] else "semantic_only_here"
+                r["written_out"] = text[:300]
+            except HangTimeout:
+                raise
+            except BaseException as e:  # noqa: BLE001
+                r["compile"] = "unparse_failed"
+                r["unparse_exc"] = exc_record(e)
+        else:
+            r["compile"] = "malformed:" + cls
+    return r
